@@ -155,6 +155,14 @@ def build_mirror(root, crates, extra_includes=None):
     cmd += [REPO.rstrip("/") + "/", mirror + "/"]
     subprocess.run(cmd, check=True)
     appended = {}
+    # harness modules of a crate may use helpers from the harness modules of its dependencies
+    deps = {"kanata": ["kanata", "parser", "keyberon"], "parser": ["parser", "keyberon"], "keyberon": ["keyberon"]}
+    closure = []
+    for crate in crates:
+        for d in deps.get(crate, [crate]):
+            if d not in closure:
+                closure.append(d)
+    crates = closure
     for crate in crates:
         d = os.path.join(HARNESS_DIR, crate)
         by_src = {}
@@ -165,7 +173,7 @@ def build_mirror(root, crates, extra_includes=None):
             target = os.path.join(mirror, CRATES[crate][1], src_rel)
             if not os.path.isfile(target):
                 raise SystemExit(f"INCONCLUSIVE: harness target {target} does not exist in /repo's tree")
-            body = "\n\n#[cfg(kani)]\n#[allow(unused_imports, dead_code, unused_variables, unused_mut, clippy::all)]\npub(crate) mod verif_kani {\n    use super::*;\n"
+            body = "\n\n#[cfg(kani)]\n#[allow(unused_imports, dead_code, unused_variables, unused_mut, clippy::all)]\npub mod verif_kani {\n    use super::*;\n"
             for f in files:
                 body += f'    include!("{f}");\n'
             for f in (extra_includes or {}).get((crate, src_rel), []):
